@@ -350,7 +350,45 @@ func numIsFloat(src []byte, n int) bool {
 //@ ensures short-ints: result2 == nil && flags.Get(jsonflags.CanonicalizeNumbers) && !numIsFloat(src, result1) && result1 < 16 && !(result1 == 2 && src[0] == '-' && src[1] == '0') ==> len(result0) == len(dst)+result1 && vForall(0, result1, func(k int) bool { return result0[len(dst)+k] == src[k] })
 //@ loop 0 invariant -1 <= rangeindex && rangeindex < n && !isFloat && vForall(0, rangeindex+1, func(k int) bool { return !(src[k] == '.' || src[k] == 'e' || src[k] == 'E') })
 
-// ReformatString: thin contract (append-only, bounds, error leaves dst alone).
+// Under PreserveRawStrings (with an escape flag set) the literal is copied
+// except that '<' '>' '&' (EscapeForHTML) and U+2028/U+2029 (EscapeForJS) are
+// replaced by their 6-byte \uXXXX escapes. rawLen is the length of that
+// rendering of src[k:n], unit by unit.
+//
+//@ spec rawUnitSrc
+func rawUnitSrc(src []byte, k int) int {
+	if src[k] < 0x80 || utf8Len(src, k) <= 0 {
+		return 1
+	}
+	return utf8Len(src, k)
+}
+
+//@ spec rawUnitLen
+func rawUnitLen(src []byte, k int, html, js bool) int {
+	c := src[k]
+	if c < 0x80 {
+		if html && (c == '<' || c == '>' || c == '&') {
+			return 6
+		}
+		return 1
+	}
+	if js && utf8Len(src, k) == 3 && (utf8Rune(src, k) == 0x2028 || utf8Rune(src, k) == 0x2029) {
+		return 6
+	}
+	return rawUnitSrc(src, k)
+}
+
+//@ spec rawLen
+func rawLen(src []byte, k, n int, html, js bool) int {
+	if k >= n || k < 0 || k >= len(src) {
+		return 0
+	}
+	return rawUnitLen(src, k, html, js) + rawLen(src, k+rawUnitSrc(src, k), n, html, js)
+}
+
+// ReformatString: append-only, bounds, error leaves dst alone; the verbatim
+// branch copies src[:n]; the PreserveRawStrings branch has exactly the length of
+// the rendering described above (so no source byte is dropped or emitted twice).
 //
 //@ func ReformatString
 //@ split
@@ -365,6 +403,9 @@ func numIsFloat(src []byte, n int) bool {
 //@ ensures err-type: result2 == nil || isUnexpectedEOF(result2) || result2 == ErrInvalidUTF8 || isInvalidTextErr(result2)
 //@ ensures ok-len: result2 == nil ==> result1 >= 2
 //@ ensures src-kept: unchanged(src)
+//@ ensures preserve-len: result2 == nil && flags.Get(jsonflags.AnyEscape) && flags.Get(jsonflags.PreserveRawStrings) ==> len(result0) == len(dst)+rawLen(src, 0, result1, flags.Get(jsonflags.EscapeForHTML), flags.Get(jsonflags.EscapeForJS))
+//@ loop 0 invariant accounting: len(dst)-len(old(dst))+(i-lastAppendIndex)+rawLen(src, i, n, flags.Get(jsonflags.EscapeForHTML), flags.Get(jsonflags.EscapeForJS)) == rawLen(src, 0, n, flags.Get(jsonflags.EscapeForHTML), flags.Get(jsonflags.EscapeForJS))
+//@ at call utf8.DecodeRune#0 assert unit: rn == rawUnitSrc(src, i) && (utf8Len(src, i) > 0 ==> r == utf8Rune(src, i) && rn == utf8Len(src, i)) && (utf8Len(src, i) <= 0 ==> r == utf8.RuneError && rn == 1)
 //@ loop 0 invariant range: 0 <= lastAppendIndex && lastAppendIndex <= i && i <= n && n <= len(src) && len(dst) >= len(old(dst))
 //@ loop 0 invariant alias: sameOrFresh(dst, old(dst)) && distinctArrays(dst, src)
 //@ loop 0 invariant prefix: vForall(0, len(old(dst)), func(k int) bool { return dst[k] == old(dst[k]) })
